@@ -4,6 +4,10 @@ import sys
 import tempfile
 import typing as ty
 
+from pathlib import Path
+
+from fileformats.core import FileSet
+from fileformats.generic import File
 from pydra.compose import python, workflow
 from pydra.engine.workflow import Workflow
 
@@ -30,11 +34,42 @@ def V(x: int, ys: list, flag: bool = True) -> ty.Any:
     return c.out
 
 
-DEFS = {"W": W, "V": V}
+@python.define
+def Where(f: File, y: ty.Any = None) -> ty.Any:
+    return ["where", f.fspath.parent.name + "/" + f.fspath.name + ":" + f.fspath.read_text(), y]
 
 
-def vals(v):
-    return {"x": v["x"], "ys": list(range(v["ys"])), "flag": v["flag"]}
+@workflow.define
+def F(x: File, ys: list, flag: bool = True) -> ty.Any:
+    a = workflow.add(Where(f=x), name="a")
+    if flag:
+        b = workflow.add(N(name="fb", x=a.out).split("y", y=ys), name="b")
+    else:
+        b = workflow.add(N(name="fb2", x=a.out, y=ys), name="b")
+    return b.out
+
+
+DEFS = {"W": W, "V": V, "F": F}
+FILES = {}      # x value of the spec -> path (x and x + 10: the same file name and content in two directories)
+
+
+def make_files(base):
+    for x, d, text in ((1, "p1", "one"), (11, "p2", "one"), (2, "p3", "two"), (12, "p4", "two")):
+        p = Path(base) / d
+        p.mkdir(parents=True, exist_ok=True)
+        (p / "f.txt").write_text(text)
+        FILES[x] = p / "f.txt"
+
+
+def vals(v, w="W"):
+    x = File(FILES[v["x"]]) if w == "F" else v["x"]
+    return {"x": x, "ys": list(range(v["ys"])), "flag": v["flag"]}
+
+
+def show(val):
+    if isinstance(val, FileSet):
+        return [p.parent.name + "/" + p.name for p in val.fspaths]
+    return val
 
 
 def graph(wf, keys):
@@ -44,9 +79,15 @@ def graph(wf, keys):
         for k, val in n.input_values:
             if k in ("name",):
                 ins[k] = val
-        g[n.name] = {"task": type(n._task).__name__, "label": ins.get("name"),
+            else:      # which file will the node receive? (bound directly, or through a workflow input)
+                from pydra.engine.lazy import LazyInField
+                if isinstance(val, LazyInField):
+                    val = getattr(wf.inputs, val._field, None)
+                if isinstance(val, FileSet):
+                    ins[k] = show(val)
+        g[n.name] = {"task": type(n._task).__name__, "label": ins.get("name"), "files": {k: v for k, v in ins.items() if k != "name"},
                      "splitter": repr(n.state.splitter) if n.state else None}
-    inputs = {k: getattr(wf.inputs, k) for k in keys}
+    inputs = {k: show(getattr(wf.inputs, k)) for k in keys}
     return {"nodes": g, "inputs": inputs}
 
 
@@ -56,10 +97,11 @@ def plain(x):
 
 if __name__ == "__main__":
     hist = json.load(open(sys.argv[1]))
+    make_files(tempfile.mkdtemp(prefix="verif_wfcc_files_"))
     res, ids = [], {}
     keep = []
     for op in hist:
-        t = DEFS[op["w"]](**vals(op["v"]))
+        t = DEFS[op["w"]](**vals(op["v"], op["w"]))
         keys = sorted(set(("x", "ys", "flag")) - set(op["lazy"]))
         try:
             if op["op"] == "run":
